@@ -4,7 +4,7 @@ import gen
 from props import gpcommon as G
 
 SCEN_FLAGS = {0: "overlapping_ops_with_update", 1: "op_concurrent_with_resize", 2: "competing_removers_of_one_node", 3: "traversal_overlapped_update",
-              5: "lazy_resize", 6: "linearizability_search_inconclusive", 7: "node_freed_during_run", 8: "racing_unique_adds_same_key",
+              5: "lazy_resize", 6: "linearizability_search_inconclusive", 7: "node_freed_during_run", 8: "racing_unique_adds_same_key", 11: "ballast_nodes_long_chain_or_full_table",
               48: "futex_sleep", 49: "wake_hit_sleeping_thread", 50: "delayed_store", 53: "fault_hit", 55: "cas_fail", 56: "mutex_block", 57: "stale_read"}
 FLAVORS = ["memb", "mb", "qsbr", "bp"]
 
@@ -12,7 +12,7 @@ FLAVORS = ["memb", "mb", "qsbr", "bp"]
 def classes_of(text, res):
     cl = [name for bit, name in SCEN_FLAGS.items() if res["flags"] >> bit & 1]
     cl.append("flavor_" + text.split("\n", 1)[0].split("_", 1)[1])
-    for l in text.split("\n")[1:11]:
+    for l in text.split("\n")[1:13]:
         if l.startswith("cfg mm "):
             cl.append("mm_" + ("order", "chunk", "mmap")[int(l.split()[2])])
         if l.startswith("cfg hash "):
@@ -32,10 +32,12 @@ def make_example(focus, faults=()):
         f = draw(st.sampled_from(focus)) if isinstance(focus, (list, tuple)) else focus
         prog, nops = gen.lfht_program(draw, tier, f, flavor)
         head = ["scen lfht_" + flavor, "cfg membarrier %d" % draw(st.integers(0, 1))]
+        if draw(st.integers(0, 3)) == 0:
+            head.append("cfg addrline %d" % draw(st.integers(1, 14)))   # one allocation of the case sits exactly on a 4 GiB address line
         out = []
         for _ in range(gen.BATCH):
             sched = gen.schedule_lines(draw, tier, len(nops), nops, ndaemons=3, faults=faults, fault_max=1 if faults else 0)
-            out.append("\n".join(head + prog + sched) + "\n")
+            out.append("\n".join(head + prog + sched + gen.budget_lines(prog)) + "\n")
         return out
     return example
 
